@@ -2499,6 +2499,13 @@ def l_outs(info):
 # XXX actually, xlat performs al = (ds:[e]bx + ZeroExtend(al))
 def xlat(info):
     e= []
+    if info.admode == x86_afs.u16:
+        # address-size prefix: the table is at bx + ZeroExtend(al), a 16-bit address
+        a = ExprCompose([(ExprInt8(0), 8, 16),
+                         (eax[0:8], 0, 8)])
+        b = ExprMem(ExprOp('+', ebx[0:16], a), 8)
+        e.append(ExprAff(eax[0:8], b))
+        return e
     a = ExprCompose([(ExprInt32(0), 8, 32),
                      (eax[0:8], 0, 8)])
     b = ExprMem(ExprOp('+', ebx, a), 8)
